@@ -337,15 +337,16 @@ class CustomVJPOuter(nn.Module):
 
 @clause('custom_vjp',
         strategy=lambda: st.tuples(
-            L.prog_strategy(allow=('tanh',), max_depth=1, max_ops=4,
-                            styles=('compact',)).map(fix_cols),
+            L.prog_strategy(allow=('tanh', 'counter', 'stat'), max_depth=1,
+                            max_ops=4, styles=('compact',)).map(fix_cols),
             st.integers(1, 3), st.integers(0, 2**16)),
         quick=100, thorough=3000, quick_shards=10, shrink=False,
         rule='generated smooth child programs under nn.custom_vjp with a '
         'backward rule that takes the sign of the parameter cotangent: the '
         'forward value equals the plain function, jax.grad of the outer apply '
         'w.r.t. params equals sign(plain gradient) and the input gradient is '
-        'the plain one; non-trivial = child has >=2 parameters')
+        'the plain one; counters / running statistics updated by the forward '
+        'pass are published exactly once while differentiating; non-trivial = child has >=2 parameters')
 def custom_vjp(case, ctx):
   prog, D, seed = case
   if not L.uses(prog, ('dense', 'param')):
@@ -364,12 +365,31 @@ def custom_vjp(case, ctx):
     y_p = m_p.apply(V, x)
   require(close(y_c, y_p), 'forward value under custom_vjp differs from the '
           'original function')
+  V = unfreeze(V)
+  state_cols = sorted(c for c in V if c != 'params')
+  P, S = {'params': V['params']}, {c: V[c] for c in state_cols}
+  def run(m, p, xx):
+    # the forward pass may update counters / running statistics
+    if state_cols:
+      y, upd = m.apply({**p, **S}, xx, mutable=state_cols)
+      return y, upd
+    return m.apply({**p, **S}, xx), {}
   with sut('grad'):
-    gc_v, gc_x = jax.grad(lambda v, xx: m_c.apply(v, xx), argnums=(0, 1))(V, x)
-    gp_v, gp_x = jax.grad(lambda v, xx: m_p.apply(v, xx), argnums=(0, 1))(V, x)
+    (gc_v, gc_x), uc = jax.grad(lambda p, xx: run(m_c, p, xx), argnums=(0, 1),
+                                has_aux=True)(P, x)
+    (gp_v, gp_x), up = jax.grad(lambda p, xx: run(m_p, p, xx), argnums=(0, 1),
+                                has_aux=True)(P, x)
   exp = jax.tree_util.tree_map(jnp.sign, gp_v)
   require(close(gc_v, exp), 'parameter gradient is not the custom backward '
           'rule (sign of the plain gradient)')
   require(close(gc_x, gp_x), 'input gradient under custom_vjp differs')
+  if state_cols:
+    _, u_fwd = run(m_p, P, x)
+    require(close(unfreeze(uc), unfreeze(u_fwd)) and close(
+        unfreeze(up), unfreeze(u_fwd)), lambda: 'state updates published '
+            'while differentiating through nn.custom_vjp differ from one '
+            f'forward pass: {jax.tree_util.tree_map(np.asarray, unfreeze(uc))}'
+            f' vs {jax.tree_util.tree_map(np.asarray, unfreeze(u_fwd))}')
   nparams = len(jax.tree_util.tree_leaves(V))
-  ctx.note(nontrivial=nparams >= 2)
+  ctx.note(labels=['stateful' if state_cols else 'stateless'],
+           nontrivial=nparams >= 2)
